@@ -1,1 +1,62 @@
--- property theorems for C02 (stub)
+/- C02: property theorems.  Level claimed for the property: translation validation (checks/C02.py); what is PROVED is the
+   emit layer below, on local slots.  No theorem is claimed for compile.c / specials.c.
+
+   Missing for the full-strength `emit_sss_correct` of DESIGN.md (hence the `_partial` names): operand kinds upvalue,
+   constant and ref (`janetc_movenear` / `janetc_moveback` through LOAD_UPVALUE / SET_UPVALUE / LOAD_CONSTANT /
+   GET_INDEX / PUT_INDEX), the `_s`, `_ss`, `_si` shapes (which go through `janetc_regfar`), and the identification of
+   `Emit.exec` with `Bytecode.Exec.step` on MOVE_NEAR / MOVE_FAR.  `sem_context_free` (reference semantics in Lean,
+   `Lang/Sem.lean`) is not written; the reference semantics that is used is harness/C02/refint.py. -/
+import JanetModel.Emit.Proofs
+import JanetModel.Bytecode.Exec
+namespace JanetModel.Props.C02
+open JanetModel.Emit
+
+/-- `janetc_emit_sss` (wr = 1) on local slots, every near/far combination and every index: the destination receives
+    `f a b` of the original operand values, every non-temporary register keeps its value. -/
+theorem emit_sss_correct_partial {α : Type} (f : α → α → α) (g : Nat → α → α) (regs : Nat → α) (op dest a b t0 t1 t2 : Nat)
+    (h01 : t0 ≠ t1) (h02 : t0 ≠ t2) (h12 : t1 ≠ t2)
+    (hd0 : dest ≠ t0) (hd1 : dest ≠ t1) (hd2 : dest ≠ t2)
+    (ha0 : a ≠ t0) (ha1 : a ≠ t1) (ha2 : a ≠ t2)
+    (hb0 : b ≠ t0) (hb1 : b ≠ t1) (hb2 : b ≠ t2) :
+    ∀ r, r ≠ t0 → r ≠ t1 → r ≠ t2 →
+      run f g regs (emitSSS op dest a b t0 t1 t2) r = if r = dest then f (regs a) (regs b) else regs r :=
+  JanetModel.Emit.emit_sss_correct f g regs op dest a b t0 t1 t2 h01 h02 h12 hd0 hd1 hd2 ha0 ha1 ha2 hb0 hb1 hb2
+
+/-- `janetc_emit_ssi` / `janetc_emit_ssu` (wr = 1) on local slots -/
+theorem emit_ssi_correct_partial {α : Type} (f : α → α → α) (g : Nat → α → α) (regs : Nat → α) (op dest a imm t0 t1 : Nat)
+    (h01 : t0 ≠ t1) (hd0 : dest ≠ t0) (hd1 : dest ≠ t1) (ha0 : a ≠ t0) (ha1 : a ≠ t1) :
+    ∀ r, r ≠ t0 → r ≠ t1 →
+      run f g regs (emitSSI op dest a imm t0 t1) r = if r = dest then g imm (regs a) else regs r :=
+  JanetModel.Emit.emit_ssi_correct f g regs op dest a imm t0 t1 h01 hd0 hd1 ha0 ha1
+
+/-- `janetc_copy` between local slots -/
+theorem copy_correct_partial {α : Type} (f : α → α → α) (g : Nat → α → α) (regs : Nat → α) (dest src t3 : Nat)
+    (hd : dest ≠ t3) (hs : src ≠ t3) :
+    ∀ r, r ≠ t3 → run f g regs (copy dest src t3) r = if r = dest then regs src else regs r :=
+  JanetModel.Emit.copy_correct f g regs dest src t3 hd hs
+
+/-- temporaries for distinct tags held together are distinct near registers; each is a previously free register or a
+    reserved one (0xF0+tag), which first-fit allocation never hands out -/
+theorem regtemp_disjoint (ra : RA) (fuel tag1 tag2 : Nat) (ht : tag1 ≠ tag2) (h1 : tag1 < 8) (h2 : tag2 < 8)
+    (hfree1 : ∃ k, k < fuel ∧ ra.taken k = false)
+    (hfree2 : ∃ k, k < fuel ∧ ((regallocTemp ra fuel tag1).2).taken k = false) :
+    let r1 := (regallocTemp ra fuel tag1).1
+    let ra1 := (regallocTemp ra fuel tag1).2
+    let r2 := (regallocTemp ra1 fuel tag2).1
+    r1 ≠ r2 ∧ r1 ≤ 0xFF ∧ r2 ≤ 0xFF ∧ (ra.alloc r1 = false ∨ 0xF0 ≤ r1) ∧ (ra.alloc r2 = false ∨ 0xF0 ≤ r2) :=
+  JanetModel.Emit.regtemp_disjoint ra fuel tag1 tag2 ht h1 h2 hfree1 hfree2
+
+/-! non-vacuity: far destination, near and far operands, reserved temporaries (more than 255 live locals) -/
+example : run (fun x y => x + y) (fun i x => x + i) (fun r => 10 * r) (emitSSS 6 300 5 70000 0xF0 0xF1 0xF2) 300 = 700050 := by
+  decide
+example : run (fun x y => x + y) (fun i x => x + i) (fun r => 10 * r) (emitSSS 6 300 5 70000 0xF0 0xF1 0xF2) 299 = 2990 := by
+  decide
+example : (emitSSS 6 300 5 70000 0xF0 0xF1 0xF2).map MI.word =
+    [(MI.movn 0xF0 300).word, (MI.movn 0xF2 70000).word, (MI.op3 6 0xF0 5 0xF2).word, (MI.movf 0xF0 300).word] := by
+  decide
+/-- with 300 registers in use the temporaries for tags 0 and 1 are the reserved 0xF0 and 0xF1 -/
+example : (regallocTemp { alloc := fun r => r < 300 } 400 0).1 = 0xF0 ∧
+    (regallocTemp (regallocTemp { alloc := fun r => r < 300 } 400 0).2 400 1).1 = 0xF1 := by
+  decide +kernel
+
+end JanetModel.Props.C02
